@@ -66,20 +66,23 @@ def run(repo: Repo) -> Result:
     if ga is None:
         res.add("C16-STRICT", strict.qual, "no-__getattribute__", "StrictUndefined must guard attribute access with __getattribute__", strict.file, strict.node.lineno)
     else:
-        body = [s for s in ga.node.body if not (isinstance(s, ast.Expr) and isinstance(s.value, ast.Constant))]
-        ok = (
-            len(body) == 2
-            and isinstance(body[0], ast.If)
-            and "allowed_properties" in text(body[0].test)
-            and isinstance(body[0].test, ast.Compare)
-            and isinstance(body[0].test.ops[0], ast.In)
-            and len(body[0].body) == 1
-            and isinstance(body[0].body[0], ast.Return)
-            and not body[0].orelse
-            and isinstance(body[1], ast.Raise)
-            and isinstance(body[1].exc, ast.Call)
-            and callee_name(body[1].exc) == "UndefinedError"
-        )
+        # read through path conditions (sa/guards.py): every `return` happens only under
+        # `name in <allowed_properties>`, every other way out raises UndefinedError
+        from ..guards import exits as _exits
+
+        ex = _exits(ga.node)
+
+        def allowed_cond(c) -> bool:
+            return isinstance(c, ast.Compare) and len(c.ops) == 1 and isinstance(c.ops[0], ast.In) and isinstance(c.left, ast.Name) and "allowed_properties" in text(c.comparators[0])
+
+        ok = bool(ex) and any(e.kind == "return" for e in ex) and any(e.kind == "raise" for e in ex)
+        for e in ex:
+            if e.kind == "return":
+                ok = ok and any(allowed_cond(c) for c in e.conds)
+            elif e.kind == "raise":
+                ok = ok and e.raised() == "UndefinedError"
+            else:
+                ok = False
         if not ok:
             res.add("C16-STRICT", ga.qual, "shape", "StrictUndefined.__getattribute__ must return allowed properties and raise UndefinedError for everything else", ga.file, ga.line)
     allowed = fold_str_set(repo, strict.module, strict.attrs.get("allowed_properties")) if "allowed_properties" in strict.attrs else None
